@@ -1,10 +1,11 @@
 (* C17 model: blacklist-aware genome tiling (bamProcessing/bamBinCounts.py) and bp_chunked
-   (utils/binning.py).  Hand transcription of the code (as repaired by fixes/C17-D21.patch and
-   fixes/C17-D23.patch); tied to the source by the correspondence check tools/c17.py.
-   Definitions only. *)
+   (utils/binning.py).  The comparisons, step / clip / merge expressions, call arguments and the sentinel
+   are the definitions g_* REGENERATED from the source on every run (Gen/GenTiling.v, tools/c17.py
+   regen_tiling); the control flow around them is a hand transcription pinned by the translator's
+   skeleton check and tied to the source by the correspondence check.  Definitions only. *)
 From Coq Require Import ZArith List Bool.
 Import ListNotations.
-From SCMO Require Import Lib.Val Lib.Tiling.
+From SCMO Require Import Lib.Val Lib.Tiling Gen.GenTiling.
 Open Scope Z_scope.
 
 (* Python exceptions are explicit results.  codes: 1 = ValueError (range() arg 3 must not be zero),
@@ -16,38 +17,38 @@ Arguments Ok {A} a.
 Arguments Raise {A} code.
 
 (* ------------------------------------------------------------------ fill_range(start, end, step)
-     e = start
-     for s in range(start, end, step):
-         e = s + step
-         if e > end: e = e - step; break
-         yield s, e
-     if e < end: yield e, end                                                             *)
-(* step > 0.  fuel = (end - start) / step + 1 iterations are enough (every iteration advances s by step);
-   with fuel 0 we have s >= end, where the code yields nothing as well. *)
-Fixpoint fr_up (fuel : nat) (s e step : Z) : list iv :=
+     e = <g_fr_init>
+     for s in range(<g_fr_range>):
+         e = <g_fr_e>
+         if <g_fr_over>: e = <g_fr_back>; break
+         yield <g_fr_yield>
+     if <g_fr_tail>: yield <g_fr_last>                                                       *)
+Definition fr_tail (start en step e : Z) : list iv :=
+  if g_fr_tail start en step e then [g_fr_last start en step e] else [].
+
+(* the for loop over range(r0, r1, rs): i is the loop variable, e the loop-carried variable;
+   up = (0 < rs).  fuel = |r1 - r0| / |rs| + 1 bounds the number of elements of the range; when the
+   fuel is used up the range is exhausted as well and the code falls through to the final `if`. *)
+Fixpoint fr_loop (fuel : nat) (start en step : Z) (up : bool) (r1 rs i e : Z) : list iv :=
   match fuel with
-  | O => []
-  | S f => if s >=? e then []
-           else if s + step <=? e then (s, s + step) :: fr_up f (s + step) e step
-           else [(s, e)]
+  | O => fr_tail start en step e
+  | S f => if (if up then i >=? r1 else i <=? r1) then fr_tail start en step e
+           else let e1 := g_fr_e start en step i e in
+                if g_fr_over start en step i e1 then fr_tail start en step (g_fr_back start en step i e1)
+                else g_fr_yield start en step i e1 :: fr_loop f start en step up r1 rs (i + rs) e1
   end.
 
-Definition fill_range (s e step : Z) : Res (list iv) :=
-  if step =? 0 then Raise 1
-  else if 0 <? step then Ok (fr_up (S (Z.to_nat ((e - s) / step))) s e step)
-  else (* step < 0: range(start, end, step) counts down; at most one loop iteration yields *)
-    if s <=? e then Ok (if s <? e then [(s, e)] else [])
-    else if e <? s + step then Ok []
-    else if s + step =? e then Ok [(s, e)]
-    else Ok [(s, s + step); (s + step, e)].
+Definition fill_range (start en step : Z) : Res (list iv) :=
+  let '(r0, r1, rs) := g_fr_range start en step in
+  if rs =? 0 then Raise 1
+  else Ok (fr_loop (S (Z.to_nat (Z.abs (r1 - r0) / Z.abs rs))) start en step (0 <? rs) r1 rs r0
+                   (g_fr_init start en step)).
 
 (* ------------------------------------------------------------------ trim_rangelist(rangelist, start, end)
-   (with C17-D23: an interval that covers the whole region is kept as well) *)
-Definition trim_keep (start end_ : Z) (b : iv) : bool :=
-  let '(s, e) := b in
-  ((start <=? s) && (s <? end_)) || ((start <=? e) && (e <? end_)) || ((s <? start) && (end_ <=? e)).
-
-Definition trim_clip (start end_ : Z) (b : iv) : iv := (Z.max (fst b) start, Z.min (snd b) end_).
+   overlap = <g_trim_keep>  (the initial value or-ed with the tests of the `if t: overlap = True` statements);
+   yield <g_trim_clip> *)
+Definition trim_keep (start end_ : Z) (b : iv) : bool := g_trim_keep start end_ (fst b) (snd b).
+Definition trim_clip (start end_ : Z) (b : iv) : iv := g_trim_clip start end_ (fst b) (snd b).
 
 Definition trim_rangelist (l : list iv) (start end_ : Z) : list iv :=
   map (trim_clip start end_) (filter (trim_keep start end_) l).
@@ -68,31 +69,34 @@ Fixpoint isort (l : list iv) : list iv :=
   | a :: t => insert a (isort t)
   end.
 
-(* ------------------------------------------------------------------ range_contains_overlap(clist) *)
-Definition ov (a b : iv) : bool :=
-  let '(s, e) := a in let '(ns, ne) := b in
-  (ns <? s) || (ns <? e) || (ne <? e) || (ne <? s).
+(* ------------------------------------------------------------------ range_contains_overlap(clist)
+   clist = sorted(clist); if <g_rco_short>: return False; any pair of neighbours with <g_rco_ov> *)
+Definition ov_rco (a b : iv) : bool := g_rco_ov (fst a) (snd a) (fst b) (snd b).
 
 Fixpoint any_ov (l : list iv) : bool :=
   match l with
-  | a :: ((b :: _) as t) => ov a b || any_ov t
+  | a :: ((b :: _) as t) => ov_rco a b || any_ov t
   | _ => false
   end.
 
-Definition range_contains_overlap (l : list iv) : bool := any_ov (isort l).
+Definition range_contains_overlap (l : list iv) : bool :=
+  let s := isort l in
+  if g_rco_short (Z.of_nat (length s)) then false else any_ov s.
 
 (* ------------------------------------------------------------------ _merge_overlapping_ranges(clist)
-   one pass over windowed(clist, 2) with the `merged` flag; called only when an overlap exists
-   (so len(clist) >= 2; for shorter lists the Python code raises TypeError - unreachable, see
-   Proofs.C17.any_ov_length) *)
-Definition merge2 (a b : iv) : iv := (Z.min (fst a) (fst b), Z.max (snd b) (snd a)).
+   one pass over windowed(clist, 2) with the `merged` flag: if <g_mp_ov>: yield <g_mp_merge> else yield <g_mp_keep>;
+   called only when an overlap exists (so len(clist) >= 2; for shorter lists the Python code raises
+   TypeError - unreachable, see Proofs.C17.any_ov_length) *)
+Definition ov (a b : iv) : bool := g_mp_ov (fst a) (snd a) (fst b) (snd b).
+Definition merge2 (a b : iv) : iv := g_mp_merge (fst a) (snd a) (fst b) (snd b).
+Definition keep1 (a b : iv) : iv := g_mp_keep (fst a) (snd a) (fst b) (snd b).
 
 Fixpoint mpass (merged : bool) (l : list iv) : list iv :=
   match l with
   | a :: ((b :: _) as t) =>
       if merged then mpass false t
       else if ov a b then merge2 a b :: mpass true t
-      else a :: mpass false t
+      else keep1 a b :: mpass false t
   | [a] => if merged then [] else [a]
   | [] => []
   end.
@@ -111,53 +115,64 @@ Definition merge_overlapping_ranges (l : list iv) : option (list iv) :=
 (* a yielded tuple: the bin and, when fragment_size is given, its fetch window *)
 Definition obin := (iv * option iv)%type.
 
-(* with C17-D21: the window is clipped to the gap [gap_start, gap_end) the bin lies in *)
-Definition window (frag : option Z) (gs ge ps pe : Z) : option iv :=
+(* the tuple yielded for one piece b of the gap: <g_bb_yield2> / fs = <g_bb_fs>, fe = <g_bb_fe>, <g_bb_yield4> *)
+Definition mk_obin (frag : option Z) (sc ec bs start en gs : Z) (b : iv) : obin :=
   match frag with
-  | None => None
-  | Some f => Some (Z.max gs (ps - f), Z.min ge (pe + f))
+  | None => (g_bb_yield2 sc ec bs start en gs (fst b) (snd b), None)
+  | Some f =>
+      let '(x, y, fs, fe) := g_bb_yield4 (fst b) (snd b) (g_bb_fs sc ec bs start en gs (fst b) (snd b) f)
+                                         (g_bb_fe sc ec bs start en gs (fst b) (snd b) f) in
+      ((x, y), Some (fs, fe))
   end.
 
-(* body of the outer loop for one gap current..start *)
-Definition gap_bins (frag : option Z) (bin_size cur start : Z) : Res (list obin) :=
-  match fill_range cur start bin_size with
+(* body of the outer loop for one gap current..start; Ok None = the `continue` after `if <g_bb_tb_neg>` *)
+Definition gap_bins (frag : option Z) (sc ec bs start en cur : Z) : Res (option (list obin)) :=
+  let '(a0, a1, a2) := g_bb_tb_args sc ec bs start en cur in
+  match fill_range a0 a1 a2 with
   | Raise c => Raise c
   | Ok l0 =>
       let tb0 := Z.of_nat (length l0) in
-      (* `if total_bins < 0: continue` is dead (a length); `if total_bins == 0: total_bins = 1` *)
-      let tb := if tb0 =? 0 then 1 else tb0 in
-      (* int((start - current) / total_bins): float quotient truncated toward zero *)
-      let lbs := Z.quot (start - cur) tb in
-      match fill_range cur start lbs with
-      | Raise c => Raise c
-      | Ok l => Ok (map (fun b => (b, window frag cur start (fst b) (snd b))) l)
-      end
+      if g_bb_tb_neg tb0 then Ok None
+      else
+        let tb := if g_bb_tb_zero tb0 then g_bb_tb_one tb0 else tb0 in
+        let lbs := g_bb_lbs sc ec bs start en cur tb in
+        let gs := g_bb_gap_start sc ec bs start en cur tb in
+        let '(b0, b1, b2) := g_bb_fill_args sc ec bs start en cur tb lbs in
+        match fill_range b0 b1 b2 with
+        | Raise c => Raise c
+        | Ok l => Ok (Some (map (mk_obin frag sc ec bs start en gs) l))
+        end
   end.
 
-Fixpoint bb_loop (frag : option Z) (bin_size cur : Z) (ivs : list iv) : Res (list obin) :=
+Fixpoint bb_loop (frag : option Z) (sc ec bs cur : Z) (ivs : list iv) : Res (list obin) :=
   match ivs with
   | [] => Ok []
-  | (start, end_) :: rest =>
-      if start =? cur then bb_loop frag bin_size end_ rest
-      else match gap_bins frag bin_size cur start with
+  | (start, en) :: rest =>
+      if g_bb_skip sc ec bs start en cur then bb_loop frag sc ec bs (g_bb_cur_skip sc ec bs start en cur) rest
+      else match gap_bins frag sc ec bs start en cur with
            | Raise c => Raise c
-           | Ok g => match bb_loop frag bin_size end_ rest with
-                     | Raise c => Raise c
-                     | Ok r => Ok (g ++ r)
-                     end
+           | Ok None => bb_loop frag sc ec bs cur rest
+           | Ok (Some g) => match bb_loop frag sc ec bs (g_bb_cur_after sc ec start en) rest with
+                            | Raise c => Raise c
+                            | Ok r => Ok (g ++ r)
+                            end
            end
   end.
 
-(* blacklist None is the empty list *)
+(* blacklist None is the empty list; `elif <g_bb_need_merge>`; current = <g_bb_cur0>;
+   chain(trim_rangelist(blacklist, <g_bb_trim_args>), [<g_bb_sentinel>]) *)
 Definition blacklisted_binning (sc ec bin_size : Z) (bl : list iv) (frag : option Z) : Res (list obin) :=
-  let merged := if (1 <? Z.of_nat (length bl)) then merge_overlapping_ranges bl else Some bl in
+  let merged := if g_bb_need_merge (Z.of_nat (length bl)) then merge_overlapping_ranges bl else Some bl in
   match merged with
   | None => Raise 99
-  | Some m => bb_loop frag bin_size sc (trim_rangelist m sc ec ++ [(ec, ec + 1)])
+  | Some m =>
+      let '(t0, t1) := g_bb_trim_args sc ec in
+      bb_loop frag sc ec bin_size (g_bb_cur0 sc ec) (trim_rangelist m t0 t1 ++ [g_bb_sentinel sc ec])
   end.
 
 (* ------------------------------------------------------------------ bp_chunked(job_generator, bp_per_job)
-   a job is abstracted to the pair (start, end) = (job[1], job[2]) plus a payload *)
+   a job is abstracted to the pair (start, end) = (job[1], job[2]) plus a payload;
+   bp_current = <g_bp_init>; bp_current += <g_bp_inc>; if <g_bp_full>: yield, bp_current = <g_bp_reset> *)
 Section Chunk.
   Context {A : Type}.
   Variable span : A -> iv.
@@ -165,11 +180,11 @@ Section Chunk.
     match jobs with
     | [] => [cur]
     | j :: rest =>
-        let bp' := bp + Z.abs (snd (span j) - fst (span j)) in
+        let bp' := bp + g_bp_inc (fst (span j)) (snd (span j)) in
         let cur' := cur ++ [j] in
-        if bp' >=? k then cur' :: bp_loop k 0 [] rest else bp_loop k bp' cur' rest
+        if g_bp_full bp' k then cur' :: bp_loop k (g_bp_reset k) [] rest else bp_loop k bp' cur' rest
     end.
-  Definition bp_chunked (jobs : list A) (k : Z) : list (list A) := bp_loop k 0 [] jobs.
+  Definition bp_chunked (jobs : list A) (k : Z) : list (list A) := bp_loop k (g_bp_init k) [] jobs.
 End Chunk.
 
 (* ------------------------------------------------------------------ executable specification
